@@ -122,8 +122,10 @@ struct Sut {
 
 impl Sut {
     fn new(tick_ms: u64) -> Sut {
-        let w_ticks = NETWORK_WAIT_PERIOD.as_millis() as u64 / tick_ms;
-        assert_eq!(w_ticks * tick_ms, NETWORK_WAIT_PERIOD.as_millis() as u64, "tick must divide the network wait period");
+        // "one second" as stated by the property, deliberately NOT taken from the code's NETWORK_WAIT_PERIOD
+        const PERIOD_MS: u64 = 1000;
+        let w_ticks = PERIOD_MS / tick_ms;
+        assert_eq!(w_ticks * tick_ms, PERIOD_MS, "tick must divide the network wait period");
         Sut {
             sh: Arc::new(Mutex::new(Shared::default())),
             tick: Duration::from_millis(tick_ms),
